@@ -398,6 +398,48 @@ func runC26(c *core.Ctx) {
 				}
 			}
 		})
+		// ... or by a resetting helper called on the first batch that stores it on each of its paths
+		if !initStored {
+			for _, in := range core.CallsIn(fn, func(_ ssa.Instruction, cc *ssa.CallCommon) bool {
+				h := cc.StaticCallee()
+				return h != nil && h.Blocks != nil && h.Pkg == fn.Pkg && h != fn
+			}) {
+				onFirst := false
+				for _, cd := range core.CondsAt(in.Block()) {
+					if cd.V == ssa.Value(pFirst) && cd.Taken {
+						onFirst = true
+					}
+				}
+				if !onFirst {
+					continue
+				}
+				h := core.CallOf(in).StaticCallee()
+				core.Instrs(h, func(hin ssa.Instruction) {
+					st, ok := hin.(*ssa.Store)
+					if !ok {
+						return
+					}
+					fa, ok := st.Addr.(*ssa.FieldAddr)
+					if !ok || core.FieldOfAddr(fa) != gapField {
+						return
+					}
+					call, isCall := st.Val.(*ssa.Call)
+					if !isCall || call.Call.StaticCallee() == nil || call.Call.StaticCallee().Name() != "verifyInitialGapOnSelectionStart" {
+						return
+					}
+					all := true
+					for _, r := range core.Returns(h) {
+						if !st.Block().Dominates(r.Block()) {
+							all = false
+						}
+					}
+					if all {
+						initStored = true
+						c.Analysed(fname(h))
+					}
+				})
+			}
+		}
 		c.Check(initStored, "C26/gap-limits-batch", "selectBatchTo/initial-gap-recorded", fn.Pos(), "on the first batch the result of verifyInitialGapOnSelectionStart is stored in copyDetectedGap",
 			"the first batch does not store the result of the initial-gap test in copyDetectedGap: a sender whose lowest nonce is above its account nonce is selected from")
 		c.Check(midStored || gapIf == nil, "C26/gap-limits-batch", "selectBatchTo/middle-gap-recorded", fn.Pos(), "the gap branch of the loop sets copyDetectedGap",
